@@ -877,6 +877,26 @@ func (it *Interp) execBlock(fn *ssa.Function, sum *Summary, w work, panicCtx boo
 			}
 			setReg(st, ins, Top{})
 		case *ssa.Index:
+			// an array value (aggregate of its elements) indexed by a constant
+			if sv, ok := it.eval(st, ins.X).(StructV); ok {
+				if ci, ok := it.eval(st, ins.Index).(Const); ok && ci.V.Kind() == constant.Int {
+					key := "[" + ci.V.ExactString() + "]"
+					if v, ok := sv.Fields[key]; ok {
+						setReg(st, ins, v)
+						continue
+					}
+					sub := map[string]AbsVal{}
+					for k, v := range sv.Fields {
+						if strings.HasPrefix(k, key+".") {
+							sub[k[len(key)+1:]] = v
+						}
+					}
+					if len(sub) > 0 {
+						setReg(st, ins, StructV{sub})
+						continue
+					}
+				}
+			}
 			// constant string indexed by a constant
 			if cs, ok := it.eval(st, ins.X).(Const); ok && cs.V.Kind() == constant.String {
 				if ci, ok := it.eval(st, ins.Index).(Const); ok && ci.V.Kind() == constant.Int {
@@ -1499,7 +1519,11 @@ func (it *Interp) load(h Heap, p Ptr, t types.Type) AbsVal {
 	if pi := it.resolve(o.Type, p.Path); pi.slice {
 		return SliceOf{p.Obj, p.Path}
 	}
-	if _, isStruct := t.Underlying().(*types.Struct); isStruct {
+	_, isStruct := t.Underlying().(*types.Struct)
+	if _, isArray := t.Underlying().(*types.Array); isArray && o.TrackAll {
+		isStruct = true // a local array is an aggregate of its elements
+	}
+	if isStruct {
 		sub := map[string]AbsVal{}
 		pre := p.Path + "."
 		if p.Path == "" {
@@ -1521,6 +1545,9 @@ func (it *Interp) store(h Heap, p Ptr, val AbsVal, t types.Type) {
 		return
 	}
 	_, isStruct := t.Underlying().(*types.Struct)
+	if _, isArray := t.Underlying().(*types.Array); isArray && o.TrackAll {
+		isStruct = true
+	}
 	if isStruct {
 		pre := p.Path + "."
 		if p.Path == "" {
